@@ -57,11 +57,27 @@ CHECKS = [
                 "the caller obligation 'other members absent' (listed in evidence notes). Declarations whose mutators are never "
                 "referenced carry no obligation (listed). F3, F12, F24, F25 found by these obligations and repaired by fix: commits.",
     },
+    {
+        "property_id": "C06",
+        "technique": "contract-based deductive verification (pyvc: loop invariants, quantified id populations, ghost state; z3 E-matching)",
+        "category": "proof",
+        "text": "Each allocator is executed symbolically from its real source against an unbounded, universally quantified population "
+                "of existing ids/keys/names: CT_SlideIdList._next_id (range 256..2147483647, freshness incl. the sorted/enumerate "
+                "fallback, never raises), CT_GroupShape.max_shape_id/_next_shape_id over arbitrary @id strings (z3 strings, Unicode "
+                "digit tables), _BaseShapes._next_shape_id and turbo_add_enabled with the data-structure invariant TURBO and its "
+                "preservation by the group/freeform paths, _Relationships._next_rId, OpcPackage.next_partname, "
+                "Package.next_image/media_partname, _next_cTn_id, _next_ph_name, rename_slide_parts (loop invariant over an array "
+                "of part names, frame for other parts), _next_slide_partname. Loops carry invariants (init/keep/use), nothing is unrolled.",
+        "note": "Assumed: lxml xpath results are 'the sequence of those attribute values'; Python built-ins (max, sorted, enumerate, "
+                "len, next, str.isdecimal, int()) by their stated contracts; pigeonhole facts for the 'never falls through' clauses "
+                "(stated assumptions); next_media_partname: every /ppt/media/media* part carries a number. Termination of "
+                "_next_ph_name's search is not proved. F6, F7, F8 found by these obligations and repaired by fix: commits.",
+    },
 ]
 
 _PENDING = "check not built yet in this session (planned, see DESIGN.md section 5)"
 NOT_APPLICABLE = [
     {"property_id": p, "reason": _PENDING}
-    for p in ["C01", "C02", "C03", "C04", "C05", "C06", "C07", "C08", "C09", "C12", "C13", "C14", "C15", "C16",
+    for p in ["C01", "C02", "C03", "C04", "C05", "C07", "C08", "C09", "C12", "C13", "C14", "C15", "C16",
               "C18", "C19"]
 ]
